@@ -12,7 +12,8 @@ from common import R
 from common import all_pre_build as pre_build  # noqa: F401  (regenerates Generated/GeoWiring.lean — translate_geo.py — from the tested tree)
 
 LEAN_MODULES = ["PyomaVerif.Props.C19", "PyomaVerif.Props.C19Geo2", "PyomaVerif.Props.C19Plot", "PyomaVerif.Mutants.C19",
-                "PyomaVerif.Mutants.C19Geo2", "PyomaVerif.Props.WiringGeo", "PyomaVerif.Props.C19Lines", "PyomaVerif.Mutants.C19Lines"]
+                "PyomaVerif.Mutants.C19Geo2", "PyomaVerif.Props.WiringGeo", "PyomaVerif.Props.C19Lines", "PyomaVerif.Mutants.C19Lines",
+                "PyomaVerif.Props.C19Why", "PyomaVerif.Props.C19Merge"]
 THEOREMS = [
     "PV.C19.C19_flatten_single",
     "PV.C19.C19_flatten_multi",
@@ -104,11 +105,19 @@ THEOREMS = [
     "PV.C19.C19_plot_geo1_lines_one_based",
     "PV.C19M.oldpoints_lines_fails",
     "PV.C19M.noshift_lines_fails",
+    # which check fires (clauses 10/11), and the C02 / C19 models of flatten_sns_names are one
+    "PV.C19.firstWhy_of_first",
+    "PV.C19.geo1Pre_eq_firstWhy",
+    "PV.C19.geo2Pre_eq_firstWhy",
+    "PV.C19.C19_geo1_first_why",
+    "PV.C19.C19_geo2_first_why",
+    "PV.C19.C19_missing_first",
+    "PV.C19.C19_flatten_eq_merge",
 ]
 RULE = (
     "correspondence: generated sheet dictionaries (1..12 sensor names, single setup or 2..4 setups with 1..3 references, "
     "row-permuted coordinate/direction tables with extra rows, optional sheets present / absent / empty, INFO sheet, every "
-    "single-fault corruption, all name forms) sent as exact rationals / strings to the Lean model and to check_on_geo1/2, "
+    "single-fault corruption and pairs of corruptions (which check fires: message of the first failing check), all name forms) sent as exact rationals / strings to the Lean model and to check_on_geo1/2, "
     "flatten_sns_names, def_geo1/def_geo2 (valid sets in every argument form AND the same single faults, incl. DataFrame "
     "directions with renamed / re-ordered row labels and mapping / sign frames labelled in another order), dfphi_map_func: same exception class or the same tables cell by cell "
     "(numbers exactly; mapped values and displacements at 1e-12); the display pipeline def_geo1 + plot_mode_geo1 / def_geo2 + "
@@ -1352,11 +1361,40 @@ def corr_plot_lines(ctx):
         ctx.count(f"plotlines{which}_{tag}_{model.get('err', 'ok')}")
 
 
+def corr_two_faults(ctx, gen):
+    """two malformations at once: the exception (class and, through the message, WHICH check) is that of the model, i.e. of
+    the first failing check in the order of the code (C19_geo1_first_why / C19_geo2_first_why / C19_missing_first)"""
+    rng = ctx.rng
+    for it in range(ctx.n(60, 800)):
+        which = 1 + it % 2
+        fn = gen.check_on_geo1 if which == 1 else gen.check_on_geo2
+        ggen, build, corrupt, cmpf, tags = ((gen_geo1, build_fd1, corrupt1, cmp_geo1, [t for t in CORR1 if t != "dup_label"]) if which == 1
+                                            else (gen_geo2, build_fd2, corrupt2, cmp_geo2, CORR2))
+        spec = ggen(rng)
+        t1, t2 = rng.sample(tags, 2)
+        try:
+            c1 = corrupt(spec, t1, rng)
+            c2 = corrupt(c1, t2, rng) if c1 is not None else None
+            fd = build(c2) if c2 is not None else None
+        except Exception:  # noqa: BLE001  (the second corruption does not apply to the result of the first)
+            fd = None
+        if fd is None:
+            ctx.skipped += 1
+            continue
+        inp = {"fd": fd_json(fd), "ref_ind": c2["ref_ind"]}
+        model = ctx.model(f"c19_geo{which}", **inp)
+        res = run(fn, dict(fd), ref_ind=c2["ref_ind"])
+        ctx.corr(f"check_on_geo{which}[two faults]", cmpf(model, res), inp, model, summarize(res),
+                 (tuple(sorted((t1, t2))), model.get("err", "ok"), model.get("why")))
+        ctx.count(f"twofaults{which}_{model.get('why', model.get('err', 'ok'))}")
+
+
 def correspondence(ctx):
     gen = _gen()
     corr_flatten(ctx, gen)
     corr_geo(ctx, gen, 1)
     corr_geo(ctx, gen, 2)
+    corr_two_faults(ctx, gen)
     corr_defgeo(ctx)
     corr_by_file(ctx)
     corr_mapphi(ctx, gen)
